@@ -7,12 +7,12 @@ from vlib import ToolError, Result, log
 # driver lists per property (the drivers scale with the tier themselves)
 PLAN = {
     "C01": {"models": ["pipeline"], "drivers": ["small", "adversarial", "char-classes"], "thorough_drivers": ["icase-sweep"]},
-    "C02": {"models": ["pipeline", "lang"], "drivers": ["small-default", "near-miss", "char-classes"]},
+    "C02": {"models": ["pipeline", "lang", "tlaps-lang"], "drivers": ["small-default", "near-miss", "char-classes"]},
     "C03": {"drivers": ["classes"], "models": ["class"]},
     "C04": {"drivers": ["icase-words", "icase-sweep"], "models": ["fold"]},
     "C05": {"drivers": ["small-rep", "repeats"], "models": ["rep", "repconv"]},
     "C06": {"drivers": ["presentation", "char-classes", "front:hist"], "models": ["lang", "verbose", "print"]},
-    "C07": {"drivers": ["lattice", "char-classes", "front:hist", "front:large"], "models": ["builder-rust"]},
+    "C07": {"drivers": ["lattice", "char-classes", "front:hist", "front:large"], "models": ["builder-rust", "apalache-builder"]},
     "C08": {"models": ["pipeline"], "drivers": ["small-anchors", "anchors"]},
     "C09": {"drivers": ["class-sweep"], "models": ["class"]},
     "C10": {"drivers": ["orders", "front:hist"], "models": ["builder-rust"]},
@@ -390,7 +390,7 @@ def model_fold(res, known, tier, seed):
     shutil.rmtree(d, ignore_errors=True)
 
 
-LANG_INV = ["SymbolicEquality", "SymbolicEqualityModEps", "SymbolicMembership", "OrderedAgrees", "FindSane"]
+LANG_INV = ["ConcatForms", "SymbolicEquality", "SymbolicEqualityModEps", "SymbolicMembership", "OrderedAgrees", "FindSane"]
 
 
 def model_lang(res, known, tier, seed):
@@ -447,7 +447,37 @@ def model_print(res, known, tier, seed):
                       render=lambda x: x.replace("\x1b", "\\e").replace("\n", "\\n"))
 
 
-MODELS = {"print": model_print, "verbose": model_verbose, "repconv": model_repconv, "lang": model_lang, "fold": model_fold, "front-laws": model_front_laws, "class": model_class, "rep": model_rep, "pipeline": model_pipeline, "builder-rust": model_builder("rust"), "builder-py": model_builder("py"),
+def model_apalache_builder(res, known, tier, seed):
+    """Unbounded (all histories, all integer arguments) safety of the settings machine: an inductive invariant
+    discharged by Apalache (thresholds always >= 1, surrogate pairs only with escaping)."""
+    d = os.path.join(vlib.OUT, "apalache")
+    os.makedirs(d, exist_ok=True)
+    spec = os.path.join(vlib.SPEC, "apalache", "AP_Builder.tla")
+    done = 0
+    for args in (["--init=Init", "--inv=IndInv", "--length=0"], ["--init=IndInit", "--inv=IndInv", "--length=1"]):
+        p = vlib.sh(["apalache-mc", "check", "--out-dir=" + d] + args + [spec], timeout=900, check=False, cwd=os.path.join(vlib.SPEC, "apalache"))
+        if "EXITCODE: OK" not in (p.stdout or ""):
+            raise ToolError("apalache %s failed:\n%s" % (args, (p.stdout or "")[-1500:]))
+        done += 1
+    shutil.rmtree(d, ignore_errors=True)
+    res.models.append({"model": "apalache/AP_Builder", "inductive_invariant": "minrep >= 1 /\\ minsub >= 1 /\\ (surr => escape)",
+                       "obligations": 2, "discharged": done, "scope": "all histories of any length, all integer arguments"})
+
+
+def model_tlaps_lang(res, known, tier, seed):
+    """TLAPS: unit laws of language concatenation and the 'modulo the empty word' comparison (39 obligations)."""
+    d = os.path.join(vlib.SPEC, "tlaps")
+    shutil.rmtree(os.path.join(d, ".tlacache"), ignore_errors=True)
+    p = vlib.sh(["tlapm", "--threads", "8", "--cleanfp", "LangLemmas.tla"], timeout=900, check=False, cwd=d)
+    m = vlib.re.search(r"All (\d+) obligations? proved", p.stdout or "")
+    shutil.rmtree(os.path.join(d, ".tlacache"), ignore_errors=True)
+    if not m:
+        raise ToolError("tlapm did not prove LangLemmas:\n%s" % (p.stdout or "")[-1500:])
+    res.models.append({"model": "tlaps/LangLemmas", "obligations": int(m.group(1)), "discharged": int(m.group(1)),
+                       "theorems": ["UnitRight", "UnitLeft", "EqualImpliesEqualModEps", "ModEpsTransitive", "ModEpsPlusEpsIsEqual"]})
+
+
+MODELS = {"tlaps-lang": model_tlaps_lang, "apalache-builder": model_apalache_builder, "print": model_print, "verbose": model_verbose, "repconv": model_repconv, "lang": model_lang, "fold": model_fold, "front-laws": model_front_laws, "class": model_class, "rep": model_rep, "pipeline": model_pipeline, "builder-rust": model_builder("rust"), "builder-py": model_builder("py"),
           "builder-wasm": model_builder("wasm")}
 
 
